@@ -77,7 +77,7 @@ def torSnap (t : TorState) : String :=
   s!"ic={boolStr t.infoComplete} ps={t.pieceSize} len={t.length} av={sparseStr t.available} if={sparseStr t.inFlight} il={t.infoLen} ib={payloadStr t.infoBits} ir={denseStr t.infoRequested} votes={listStr votes}"
 
 def allocStr (ta model : Nat) : String :=
-  if ta ≤ 2 * model + 65536 then "aok" else s!"abad(model={model})"
+  if ta ≤ 2 * model + 262144 then "aok" else s!"abad(model={model})"
 
 def isMsg : PeerMsg.Out → Bool
   | .msg _ => true
